@@ -3,6 +3,7 @@ import re
 
 from gsa.cfg import Fn, S, is_call, is_assign, walk, lit
 from gsa import lock as L
+from gsa.layout import Poly
 from gsa import rules as R
 from . import wl_locks
 
@@ -41,6 +42,89 @@ def run(ctx):
 
 
 # ------------------------------------------------------------------ bump
+def _lin(t, fresh):
+    """linear form of an expression over offset / alignedSize / AllocSize (A); None when outside that fragment"""
+    if not isinstance(t, dict):
+        return None
+    k = t.get("k")
+    if k == "int":
+        return Poly.const(t["v"])
+    if k == "sizeof" and not isinstance(t.get("c"), dict) and "c" in t:
+        return Poly.const(t["c"])
+    if k == "cast":
+        return _lin(t["e"], fresh)
+    s = S(t)
+    if s == "this->offset":
+        return Poly.sym("offset")
+    if s == "alignedSize":
+        return Poly.sym("aligned")
+    if k in ("ref", "mem") and s.endswith("AllocSize"):
+        return Poly.sym("A")
+    if k == "bin" and t["op"] in ("+", "-"):
+        a, b = _lin(t["l"], fresh), _lin(t["r"], fresh)
+        if a is None or b is None:
+            return None
+        return a + b if t["op"] == "+" else a - b
+    return None
+
+
+def bump_fit(ctx, fx, fn, cls, bumpe):
+    """state = (frozenset of facts `poly <= 0`, offset value: 'sym' or an int after a refill)"""
+    # constant the offset restarts at, from refill's own body
+    rconst = None
+    for rf in insts(fx, cls + "::refill"):
+        for _, e in ctx.fn(rf).events(lambda e: e.get("k") == "assign" and e.get("op") == "=" and e.get("lp") in ("this->offset", "*o")):
+            v = _lin(e.get("rhs"), None)
+            if v is not None and v.is_const():
+                rconst = v.cval()
+    if rconst is None:
+        return ["refill() does not restart the offset at a constant"]
+    init = (frozenset(), "sym")
+
+    def on_event(st, pos, e):
+        facts, off = st
+        if e.get("k") == "call" and e.get("name") == "refill":
+            touches = (not e.get("a")) or any("offset" in S(a) for a in e.get("a", []))
+            if touches:
+                return (frozenset(f for f in facts if not any("offset" in m for m in f.t)), rconst)
+            return st
+        if e.get("k") == "assign" and e.get("lp") == "this->offset" and not bumpe(e):
+            return (frozenset(f for f in facts if not any("offset" in m for m in f.t)), "sym")
+        if e.get("k") == "assign" and e.get("lp") == "alignedSize":
+            return (frozenset(f for f in facts if not any("aligned" in m for m in f.t)), off)
+        return st
+
+    def on_edge(st, bid, i, t, val):
+        facts, off = st
+        if isinstance(t, dict) and t.get("k") == "bin" and t.get("op") in (">", ">=", "<", "<="):
+            a, b = _lin(t["l"], None), _lin(t["r"], None)
+            if a is not None and b is not None:
+                op = t["op"]
+                if not val:
+                    op = {">": "<=", ">=": "<", "<": ">=", "<=": ">"}[op]
+                d = {"<=": a - b, "<": a - b + Poly.const(1), ">=": b - a, ">": b - a + Poly.const(1)}[op]
+                facts = facts | {d}
+        return (facts, off)
+
+    at = fn.flow(init, on_event, on_edge)
+    det = []
+    for pos, e in fn.events(bumpe):
+        for facts, off in at.get(pos, ()):
+            need = (Poly.sym("offset") if off == "sym" else Poly.const(off)) + Poly.sym("aligned") - Poly.sym("A")
+            ok = False
+            for f in facts:
+                if off != "sym":
+                    f = f.subst("offset", off)      # facts learnt after the refill speak about the restarted offset
+                d = need - f
+                if d.is_const() and d.cval() <= 0:
+                    ok = True
+            if not ok:
+                det.append("a path reaches the bump at line %s with offset = %s and no comparison bounding offset + aligned "
+                           "size by AllocSize (facts: %s)" % (e.get("l"), "member" if off == "sym" else off,
+                                                             sorted(repr(f) + " <= 0" for f in facts) or "none"))
+    return det
+
+
 def bump(ctx, fx):
     ctx.rule("C09.bump.align-bump-order",
              "bump allocate(): the request is rounded up by (size + sizeof(double) - 1) & ~(sizeof(double) - 1); the returned "
@@ -49,6 +133,9 @@ def bump(ctx, fx):
              "after the block header (sizeof(Block))")
     ctx.rule("C09.bump.partial-clamp", "allocate(size, allocated): after a refill the remaining space is re-read and the aligned "
              "size is clamped to it before the bump; allocated = min(size, aligned)")
+    ctx.rule("C09.bump.fit", "allocate(size): on every path to `offset += aligned` a comparison on that path bounds the block's "
+             "current offset (the member, or sizeof(Block) just after a refill) plus the aligned size by the source heap's "
+             "AllocSize, with neither value changed in between (linear facts from branch edges; the header is part of the block)")
     for cls in (RT + "BumpHeap", RT + "BumpWithMallocHeap"):
         fs = insts(fx, cls + "::allocate")
         ctx.floor(cls + "::allocate instantiations", len(fs), 1)
@@ -97,6 +184,10 @@ def bump(ctx, fx):
                     det.append("offset bumped twice")
             ctx.ob("C09.bump.align-bump-order", cls + "::allocate", not det, "; ".join(sorted(set(det))), fn.loc(),
                    "allocate/%d" % len(f["params"]), fnkey=f["key"])
+            if len(f["params"]) == 1:
+                det = bump_fit(ctx, fx, fn, cls, bumpe)
+                ctx.ob("C09.bump.fit", cls + "::allocate", not det, "; ".join(sorted(set(det))), fn.loc(), "allocate/1",
+                       fnkey=f["key"])
             if len(f["params"]) == 2:
                 det = []
                 rf = is_call(name="refill")
